@@ -21,4 +21,14 @@ def holdsExpand (limit : Nat) (off : Int) (ok errored : Bool) (sizeAfter : Nat) 
 accepted iff it does not exceed the limit (so `limit` passes and `limit + 1` does not). -/
 def accepts (limit size : Nat) : Bool := size ≤ limit
 
+/-- The property on one observed call in which exactly one message — at any position of the
+request stream (server side) or response stream (client side) — has `size` bytes and all
+others are far below the limit: `ok = true` means the call succeeded, `exhausted = true` that
+it failed with resource-exhausted.  A message within the limit must be accepted, which
+includes that the receiving side handed on all `want` messages of the stream and that the
+one under test arrived with its `size` bytes (`echo`); a message beyond the limit must be
+rejected with resource-exhausted — also when it is the first message of a stream. -/
+def holdsSharp (limit size : Nat) (ok exhausted : Bool) (want got echo : Nat) : Bool :=
+  if accepts limit size then ok && got == want && echo == size else exhausted && !ok
+
 end ConfModel.Padding
